@@ -347,7 +347,8 @@ def _rand_bernsen(rng):
         base = rng.randint(0, top - 6)
         data = [(base + rng.randint(0, 3)) if rng.random() < 0.7 else rng.randint(0, top) for _ in range(n)]
     ct = rng.choice([0, 1, 2, 3, 5, 15, 40, 128, top, top + 1])
-    g2 = rng.choice([2 * rng.randint(0, top), 2 * rng.randint(0, top) + 1, 2 * data[rng.randrange(n)], 256])
+    # twice the global threshold; 0 (a legitimate explicit threshold, falsy in Python) and the dtype maximum included
+    g2 = rng.choice([0, 2 * top, 2 * rng.randint(0, top), 2 * rng.randint(0, top) + 1, 2 * data[rng.randrange(n)], 256])
     if len(shape) == 2 and rng.random() < 0.3:
         return dict(kind='bernsen', dtype=dtype, shape=shape, data=data, radius=rng.choice([1, 2, 3]), ct=ct, g2=g2,
                     default_g=rng.random() < 0.3, gen='circle')
